@@ -3,6 +3,7 @@ from .common import *  # noqa: F403
 from spacepackets.cfdp.tlv.tlv import (CfdpTlv, EntityIdTlv, FlowLabelTlv, FaultHandlerOverrideTlv, FileStoreRequestTlv,
                                         FileStoreResponseTlv)
 from spacepackets.cfdp.tlv.msg_to_user import MessageToUserTlv
+from spacepackets.cfdp.tlv.tlv import map_int_status_code_to_enum, map_enum_status_code_to_action_status_code, map_enum_status_code_to_int
 from spacepackets.cfdp.tlv.holder import TlvHolder
 from spacepackets.cfdp.tlv.defs import TlvType, FilestoreActionCode, FilestoreResponseStatusCode
 from spacepackets.cfdp.defs import ConditionCode, FaultHandlerCode
@@ -282,6 +283,36 @@ def h_fsresp(ctx, s1, s2, m):
     via_all_routes(ctx, FileStoreResponseTlv, "to_fs_response", raw, check, obj=o)
 
 
+def h_fsresp_generic(ctx, s1):
+    """status given as the bare 4-bit code (plain integer, or the generic members SUCCESS / NOT_PERFORMED) with any action
+    code: the packed octet is action<<4 | status, exactly as with the action-specific member"""
+    full = ctx.int("status", 0, 0x8F)
+    ctx.assume(member(full, STATUS_VALUES))
+    action, low = full >> 4, full & 0xF
+    n1 = ctx.text("n1", s1)
+    n2 = ctx.text("n2", (1,))
+    has2 = bool(member(action, SNP))
+    b1, b2 = items_of(n1.encode()), items_of(n2.encode())
+    val = [full, len(b1)] + b1 + (([len(b2)] + b2) if has2 else []) + [0]
+    ref = ctx.bytes_of([1, len(val)] + val)
+    forms = [("plain 4-bit integer", low)]
+    if not ctx.symbolic:
+        if int(low) == 0:
+            forms.append(("generic member SUCCESS", FilestoreResponseStatusCode.SUCCESS))
+        if int(low) == 15:
+            forms.append(("generic member NOT_PERFORMED", FilestoreResponseStatusCode.NOT_PERFORMED))
+    for what, st in forms:
+        e, raw = call(lambda: FileStoreResponseTlv(en(ctx, FilestoreActionCode, action), st, n1, n2).pack())
+        ctx.holds("status as %s: pack == reference layout" % what.split(" member")[0], e is None and raw == ref, exc_name(e))
+    # the two mapping helpers are inverse to each other on the table of defined codes
+    e, got = call(map_int_status_code_to_enum, en(ctx, FilestoreActionCode, action), low)
+    ctx.holds("map_int_status_code_to_enum(action, 4-bit status) == the action-specific code", e is None and got == full, exc_name(e))
+    e, got = call(map_enum_status_code_to_action_status_code, en(ctx, FilestoreResponseStatusCode, full))
+    ctx.holds("map_enum_status_code_to_action_status_code == (action, 4-bit status)", e is None and sym_and(got[0] == action, got[1] == low),
+              exc_name(e))
+    ctx.holds("map_enum_status_code_to_int", map_enum_status_code_to_int(en(ctx, FilestoreResponseStatusCode, full)) == low)
+
+
 # ---------------------------------------------------------------- type safety
 CONCRETE = {
     "entity": (EntityIdTlv, "to_entity_id", 6, lambda: EntityIdTlv(b"\x01")),
@@ -323,7 +354,9 @@ def h_holder_matrix(ctx, kind):
 
 
 def cases(tier):
-    cs = []
+    cs = [Case("fsresp-generic-%s" % shape_name(s1), "fsresp", h_fsresp_generic, dict(s1=s1),
+               bounds="every defined (action, status) pair, status handed over as 4-bit code; first name shape %s" % (s1,))
+          for s1 in ((1,), ())]
     for n in tier_pick(tier, (0, 1, 2, 3, 255, 256), tuple(range(0, 9)) + (254, 255, 256, 300)):
         cs.append(Case("tlv-n%d" % n, "tlv", h_tlv, dict(n=n), bounds="every TLV type, every value of %d octets%s" % (
             n, " (concrete filler)" if n > 8 else ""), must_reach=["pack == type,length,value"] if n <= 255 else []))
